@@ -53,7 +53,9 @@ impl<T, E> Stream for ObservableStream<T, E> {
           Poll::Ready(None)
         }
       },
-      None => Poll::Pending,
+      // The observer is gone (it drops its sender after an error): no
+      // further message can arrive, the stream has ended.
+      None => Poll::Ready(None),
     }
   }
 }
